@@ -195,6 +195,11 @@ class Daemon:
                 raise DaemonDied(out + stats)
             if not in_block and line.startswith(b"S iauth :"):
                 in_block = True
+            if not in_block and line == b"s":
+                # the end of a statistics report whose beginning was not seen at the start of a line: whatever the
+                # daemon wrote before it was not terminated.  The lines are handed to the monitors as they came.
+                self.unframed = getattr(self, "unframed", 0) + 1
+                break
             if in_block:
                 if line == b"s":
                     break
